@@ -18,6 +18,15 @@ CLAIMED = {
          "implementation compared with the extracted concrete model and checked by an independent Rust oracle of the rule.", "5/C11", ""),
  "C12": ("UniqueId uniqueness is part of `Rep`/`WF` (NoDup of ids, id set = ids held) and of the refinement lemmas; implementation compared with the model on histories with colliding ids.", "5/C12",
          "fetch_add atomicity of UniqueId::now is hardware/runtime, exercised not proven."),
+ "C14": ("Byte-level round-trip law proved for all attribute maps and all 19 supported types (attr_roundtrip: wf_amap m -> attr_encode m = Ok b -> attr_decode b = Ok (norm m), with norm exactly the "
+         "permitted normalisations), empty map <-> zero bytes, type-id table injective, all 24 rotation ids round-trip, the document's rotation table equals the code's, snapping only within epsilon of a basis; "
+         "an independent codec written from docs/attributes.md (Spec/AttrSpec.v) is run against every implementation blob and its blobs are fed to the real reader; model, spec and implementation are compared "
+         "byte for byte on generated maps, all BrickColor numbers, all type ids, truncations and mutations.", "5/C14",
+         "f32 comparisons of approx_unit_or_zero are modelled by integer thresholds on bit patterns, validated against the real function by a sweep (2^32 in the thorough tier)."),
+ "C17": ("Pure hand-written conversions proved over executable models: Ref text round trip for all 2^128 values, UniqueId text round trip for all ids, BrickColor number/name/colour over the regenerated table "
+         "for all 2^16 numbers, Faces/Axes for all bytes, Tags round trip iff no empty/NUL tag, MaterialColors 69-byte law and observational round trip; models compared line-exactly with rbx_types (exhaustive over "
+         "the finite domains); every Variant type through four serde_json entry points, bincode and rmp-serde on the implementation; rbx_dom_lua/src/allValues.json exhaustively.", "5/C17",
+         "serde_json, bincode, rmp-serde and derive-generated code are exercised, not modelled (partial by nature); the fixture has no samples of 5 types."),
  "C16": ("Translator + finite exhaustive proof + general lemmas: the database the crates really load is regenerated into Coq (Gen/Database.v) on every run and "
          "`db_coherent database = true` (every clause of the property, all 797 classes / 3242 descriptors / 458 enums / 7231 defaults) is re-proved by vm_compute; for ANY database passing "
          "the check both descriptor lookups and the default lookup are total (no panic, no fuel exhaustion) and agree up to DoesNotSerialize; the two Rust copies of find_property_descriptors "
